@@ -113,6 +113,15 @@ def _mem_replace(I, st, fid, bi, a, c, t):
     return old
 
 
+@model('core::mem::take')
+def _mem_take(I, st, fid, bi, a, c, t):
+    # mem::take(&mut place): the old value is returned, the place holds T::default() (an opaque value here)
+    lv = target_lv(a[0])
+    old = I.read(st, lv)
+    store(I, st, fid, bi, t, lv, ('call', 'core::default::Default::default', (), next(I.counter)), 'mem::take')
+    return old
+
+
 @model('core::cell::Cell::<T>::replace')
 def _cell_replace(I, st, fid, bi, a, c, t):
     lv = target_lv(a[0])
@@ -682,6 +691,21 @@ def _for_each(I, st, fid, bi, a, c, t):
         return UNIT if rx != ('never',) else UNIT
     # iter::from_fn(g).for_each(f): one generic iteration of `while let Some(x) = g() { f(x) }` (captured &mut state havocked first)
     src = a[0]
+    if len(a) > 1 and not (src[0] == 'agg' and src[1] == 'iter:FromFn') and (a[1][0] == 'agg' and a[1][1].startswith('closure:')):
+        # any other iterator with a closure written in this crate: one generic iteration on an item of that iterator
+        # (zero iterations are possible too: the state afterwards is havocked)
+        f = a[1]
+        _havoc_captures(I, st, f)
+        n = next(I.counter)
+        nx = ('call', 'core::iter::traits::iterator::Iterator::next', (src,), n)
+        item = ('app', 'vproj', nx, 'Some', '0')
+        s2 = st.copy()
+        s2.facts.add(('is', nx, 'Some'))
+        I.event('call', s2, fid, bi, t.get('span') if t else None, callee='core::iter::traits::iterator::Iterator::next', args=[src], extra={'trait_path': 'core::iter::traits::iterator::Iterator::next', 'synthetic': True})
+        I.res.events[-1].ret = nx
+        I.apply_callable(s2, fid, bi, f, agg('tuple', '', (('0', item),)))
+        I.havoc(st, 'for_each')
+        return UNIT
     if src[0] == 'agg' and src[1] == 'iter:FromFn' and len(a) > 1:
         g = field_of(src, 'f')
         f = a[1]
